@@ -60,7 +60,7 @@ theorem Step.handleSn (S : Sites Sn Mq) (g : Gw) (p : Pkt) (hp : PktIn p)
       · rename_i t h
         split
         · rename_i q st data snp n hk
-          exact Step.bpRegack g t (lookupById_mem h) q st data snp n hk _
+          exact Step.bpRegack g t (lookupByIdB_mem h) q st data snp n hk _
         · exact Step.refl g
       · exact Step.refl g
     · -- PUBACK
